@@ -15,10 +15,16 @@
   object fields.
   Quantified over every application with `App.WF`, `MetaCovers`, `MetaRanked` and every
   state reachable through the parameter ports (`App.Reachable`; `inv_reachable` gives the
-  invariant `App.Inv` the proofs use).
+  invariant `App.Inv` the proofs use).  `App.WF` lets the dependency order be any finite strict
+  partial order — two independent ports may share dependants (`rDepends` lists naming
+  independent ports; no chain condition: `hypotheses_cover_shared_dependants_and_preset_arrays`)
+  — and lets the elements of a `name#N` array take constant or preset-dependent defaults.
 -/
 import RtoscModel.Proofs.SaveLoad
+import RtoscModel.Proofs.SaveArrayLine
+import RtoscModel.Proofs.SaveWfBool
 import RtoscModel.Proofs.SaveExample
+import RtoscModel.Proofs.SaveExampleDiamond
 namespace Rtosc.C12
 open Rtosc Rtosc.Save
 
@@ -58,13 +64,25 @@ theorem saved_value (app : App) (hwf : app.WF) (s : State) (i : Nat) (hi : Item.
     l = ⟨(app.param i).addr, .plain [mapArgVal (app.param i).kind (s i)]⟩ :=
   saved_scalar_value app hwf s i hi l hl ha
 
-/-- the same for an array port `name#N`: one line iff some element differs -/
+/-- the same for an array port `name#N`: one line iff some element differs from its own default — constant or
+    selected by the preset port (`rDefaultDepends` on an array port) -/
 theorem saved_iff_differs_array (app : App) (hwf : app.WF) (s : State) (base : Path) (first len : Nat)
     (hi : Item.array base first len ∈ app.walk) :
     (∃ l ∈ app.save s, l.addr = base) ↔
       (guardsOn (app.param first) s = true ∧
         ∃ k, k < len ∧ s (first + k) ≠ evalDflt (app.param (first + k)) s) :=
   saved_array_iff app hwf s base first len hi
+
+/-- **saved_value** for an array port (what "only differences" means for `name#N`): its line carries the current
+    values of the elements `0 … n-1` (option indices as symbols), where element `n-1` is the last one that differs
+    from its default; the elements behind it equal their defaults and are not written. -/
+theorem saved_value_array (app : App) (hwf : app.WF) (s : State) (base : Path) (first len : Nat)
+    (hi : Item.array base first len ∈ app.walk) (l : Line) (hl : l ∈ app.save s) (ha : l.addr = base) :
+    ∃ n, 0 < n ∧ n ≤ len ∧
+      l = ⟨base, .arr ((List.range n).map fun k => mapArgVal (app.param (first + k)).kind (s (first + k)))⟩ ∧
+      s (first + (n - 1)) ≠ evalDflt (app.param (first + (n - 1))) s ∧
+      ∀ k, n ≤ k → k < len → s (first + k) = evalDflt (app.param (first + k)) s :=
+  saved_array_value app hwf s base first len hi l hl ha
 
 /-- every line belongs to a port of the walk (nothing else is written) -/
 theorem saved_only_ports (app : App) (hwf : app.WF) (s : State) (l : Line) (hl : l ∈ app.save s) :
@@ -177,6 +195,59 @@ example : exApp.save exState = [⟨"/p".toList, .plain [.int 1]⟩, ⟨"/s/a".to
 open Rtosc.Save.Example in
 example : exApp.loadFile (exApp.saveFile (0, 3, 1) (1, 2, 3) exState) exApp.init = .ok exState 2 :=
   load_save_restores exApp ex_wf ex_covers ex_ranked _ _ rfl rfl exState ⟨_, rfl⟩
+
+/-! ### non-vacuity, second application: shared dependants and a preset-dependent array default
+
+    `DiamondExample.dApp`: `/p` and `/q` are independent of each other and both re-apply the default of `/d`
+    (`rDefaultDepends(p)`, `rDepends(q)`): the ancestors of `/d` do not form a chain (`d_not_chain`, the shape of
+    the generated applications A6-A9); `/a#2` takes its per-element defaults from the preset `/p` (A9, A10). -/
+
+open Rtosc.Save.DiamondExample in
+/-- **the hypotheses of the theorems cover shared dependants and preset-dependent array defaults**: an
+    application satisfying `WF`, `MetaCovers` and `MetaRanked` in which two independent ports share a dependant
+    (it violates the chain condition `App.AncChain`, which the theorems needed before the confluence proof
+    `App.setParam_commute`) and an array port's defaults depend on a preset port. -/
+theorem hypotheses_cover_shared_dependants_and_preset_arrays :
+    ∃ app : App, app.WF ∧ app.MetaCovers ∧ MetaRanked app.apropos ∧ ¬ app.AncChain ∧
+      ∃ base first len par tbl fb, Item.array base first len ∈ app.walk ∧
+        (app.param first).dflt = .preset par tbl fb :=
+  ⟨dApp, d_wf, d_covers, d_ranked, d_not_chain, "/a".toList, 3, 2, 0, [(1, .int 7)], .int 1,
+    List.mem_cons_of_mem _ (List.mem_cons_of_mem _ (List.mem_cons_of_mem _ List.mem_cons_self)), rfl⟩
+
+open Rtosc.Save.DiamondExample in
+example : dApp.Reachable dState := ⟨_, rfl⟩
+
+open Rtosc.Save.DiamondExample in
+/-- the saved lines: both independent ports, their shared dependant (set after both), and the array line: its
+    elements are compared with the defaults `/p = 1` selects ([7 8]), the first one equals its default -/
+example : dApp.save dState = [⟨"/p".toList, .plain [.int 1]⟩, ⟨"/q".toList, .plain [.int 5]⟩,
+    ⟨"/d".toList, .plain [.int 4]⟩, ⟨"/a".toList, .arr [.int 7, .int 9]⟩] := by decide
+
+open Rtosc.Save.DiamondExample in
+example : dApp.loadFile (dApp.saveFile (0, 3, 1) (1, 2, 3) dState) dApp.init = .ok dState 4 :=
+  load_save_restores dApp d_wf d_covers d_ranked _ _ rfl rfl dState ⟨_, rfl⟩
+
+open Rtosc.Save.DiamondExample in
+/-- the array line is there because the second element differs from its preset-dependent default -/
+example : ∃ l ∈ dApp.save dState, l.addr = "/a".toList :=
+  (saved_iff_differs_array dApp d_wf dState "/a".toList 3 2
+    (List.mem_cons_of_mem _ (List.mem_cons_of_mem _ (List.mem_cons_of_mem _ List.mem_cons_self)))).2
+    ⟨by decide, 1, by decide, by decide⟩
+
+open Rtosc.Save.DiamondExample in
+/-- … and `saved_value_array` applies to it: the hypotheses hold for the line `/a [7 9]` -/
+example : ∃ n, 0 < n ∧ n ≤ 2 ∧
+    (⟨"/a".toList, .arr [.int 7, .int 9]⟩ : Line) =
+      ⟨"/a".toList, .arr ((List.range n).map fun k => mapArgVal (dApp.param (3 + k)).kind (dState (3 + k)))⟩ :=
+  let ⟨n, h1, h2, h3, _⟩ := saved_value_array dApp d_wf dState "/a".toList 3 2
+    (List.mem_cons_of_mem _ (List.mem_cons_of_mem _ (List.mem_cons_of_mem _ List.mem_cons_self)))
+    ⟨"/a".toList, .arr [.int 7, .int 9]⟩ (by decide) rfl
+  ⟨n, h1, h2, h3⟩
+
+open Rtosc.Save.DiamondExample in
+/-- the Bool versions of `WF.kind_ok` / `WF.walk_tiles` (Save/WfBool.lean, sound by `App.kindOkB_sound` /
+    `App.walkTilesB_sound`) evaluate to true on it -/
+example : dApp.kindOkB = true ∧ dApp.walkTilesB = true := by decide
 
 /-! ### known finding C12-K9: +infinity does not survive the text stages -/
 
